@@ -2,6 +2,7 @@ import os
 import logging
 import asyncio
 import sqlite3
+import struct
 import platform
 from binascii import hexlify
 from collections import defaultdict
@@ -770,11 +771,18 @@ class Database(SQLiteMixin):
                     }, ignore_duplicate=True)).fetchall()
 
         for txo in tx.outputs:
-            if txo.script.is_pay_pubkey_hash and (txo.pubkey_hash == txhash or is_my_input):
+            try:
+                is_pay_pubkey_hash = txo.script.is_pay_pubkey_hash
+                is_pay_script_hash = txo.script.is_pay_script_hash
+            except (ValueError, struct.error):
+                # somebody else's output with a script the wallet has no template for (bare multisig,
+                # bare OP_RETURN, ...): it cannot pay this address and must not abort the sync
+                continue
+            if is_pay_pubkey_hash and (txo.pubkey_hash == txhash or is_my_input):
                 conn.execute(*self._insert_sql(
                     "txo", self.txo_to_row(tx, txo), ignore_duplicate=True
                 )).fetchall()
-            elif txo.script.is_pay_script_hash and is_my_input:
+            elif is_pay_script_hash and is_my_input:
                 conn.execute(*self._insert_sql(
                     "txo", self.txo_to_row(tx, txo), ignore_duplicate=True
                 )).fetchall()
